@@ -155,6 +155,16 @@ def trial_params(draw, kind, norb, nelec, orthonormal=None):
         coeffs = draw(real((k,))) * amp
         coeffs = coeffs + np.where(np.arange(k) == 0, np.sign(coeffs[0] + 1e-9) * 1.0, 0.0)  # reference coefficient away from 0
         chosen = [dets[i] for i in order]
+        if k >= 2 and draw(st.integers(0, 2)) == 0:
+            # reference with the *highest* orbitals occupied and the aufbau determinant among the excitations: the same-spin multiple
+            # excitations then have their particles below their holes, where the sign bookkeeping of the excitation list is most delicate
+            ta, tb = tuple([0] * (norb - na) + [1] * na), tuple([0] * (norb - nb) + [1] * nb)
+            ba, bb = tuple([1] * na + [0] * (norb - na)), tuple([1] * nb + [0] * (norb - nb))
+            # ... or with different orbitals occupied in the two spin channels of the reference (restricted-walker entry points must
+            # take the beta rows from the beta reference, not from the alpha one)
+            top, bot = draw(st.sampled_from([((ta, tb), (ba, bb)), ((ta, bb), (ba, tb)), ((ba, tb), (ta, bb))]))
+            rest = [d for d in chosen if d not in (top, bot)]
+            chosen = ([top, bot] + rest)[:k] if top != bot else chosen
         d0 = chosen[0]
         need = max(
             (sum(abs(np.array(d[0]) - np.array(d0[0]))) // 2 + sum(abs(np.array(d[1]) - np.array(d0[1]))) // 2) for d in chosen
